@@ -404,6 +404,78 @@ pub fn case_strategy() -> impl Strategy<Value = Case> {
         .prop_map(|(machine, blocks, truncate, requests, ram_seed, prelude)| Case { machine, blocks, truncate, requests, ram_seed, prelude })
 }
 
+#[derive(Clone, Debug, Serialize, Deserialize)]
+pub struct PlayAfterEnd {
+    pub machine: Machine,
+    pub block: BlockSpec,
+    pub ram_seed: u64,
+    /// frames the request past the end is left waiting before the host presses play
+    pub wait_frames: u8,
+}
+
+/// Fast loading and the deck together: the tape's only block is fast-loaded, a second request finds
+/// no block and keeps waiting (silent tape); the host then presses PLAY — the deck is back at the
+/// start (C12) and the waiting request must receive block 1 through the EAR input, with the result
+/// LD-BYTES gives for that block.
+pub fn check_play_after_end(c: &PlayAfterEnd, rec: &mut Rec) -> Result<(), String> {
+    let block = block_bytes(&c.block);
+    let image = tap::write(&[block.clone()]);
+    let mut rig = mk_rig(c.machine, c.ram_seed, true);
+    rig.e.load_tape(Tape::Tap(DynAsset::new(MemAsset::new(image)))).map_err(|x| format!("load_tape: {:?}", x))?;
+    let payload_len = block.len().saturating_sub(2) as u16;
+    let rq = Request { a: block[0], load: true, ix: 0x6000, de: payload_len };
+    // request 1: served at once by the fast loader
+    setup_call(&mut rig, &rq);
+    let snapshot_mem = rig.m.clone();
+    let mut rd = |a: u16| snapshot_mem.read(a);
+    let want = ld_bytes(&block, &rq, &mut rd);
+    if mach::run_to(&mut rig.e, &[RET_ADDR], 10)?.is_none() {
+        return Err("request 0: LD-BYTES did not return within 10 frames with fast loading enabled".into());
+    }
+    for (a, v) in &want.stores {
+        rig.m.write(*a, *v);
+    }
+    compare_memory(&rig, "request 0 (fast load of the only block)")?;
+    // request 2: nothing left
+    let rq2 = Request { a: block[0], load: true, ix: 0x7000, de: payload_len };
+    setup_call(&mut rig, &rq2);
+    let snapshot_mem = rig.m.clone();
+    let mut rd = |a: u16| snapshot_mem.read(a);
+    let want2 = ld_bytes(&block, &rq2, &mut rd);
+    if mach::run_to(&mut rig.e, &[RET_ADDR], c.wait_frames as usize % 8 + 2)?.is_some() {
+        let f = mach::get_regs(&mut rig.e).af & 1;
+        if f == 1 {
+            return Err("request 1 past the end of the tape completed SUCCESSFULLY".into());
+        }
+        // a failed return (BREAK-like) is not what a silent tape does either, but that is C10's first phase
+        return Ok(());
+    }
+    // PLAY: the deck is at the start again, block 1 arrives in real time (pilot ~100 frames)
+    rig.e.play_tape();
+    rec.eval();
+    if mach::run_to(&mut rig.e, &[RET_ADDR], 400)?.is_none() {
+        return Err(format!(
+            "one-block tape ({} bytes, flag {:#04x}): block fast-loaded, second request left waiting at the end of the tape, host pressed PLAY: the request did not complete within 400 frames — the deck did not replay the tape from its first block",
+            block.len(), block[0]
+        ));
+    }
+    let regs = mach::get_regs(&mut rig.e);
+    let carry = regs.af & 1 == 1;
+    for (a, v) in &want2.stores {
+        rig.m.write(*a, *v);
+    }
+    if carry != want2.carry || regs.ix != want2.ix || regs.de != want2.de {
+        return Err(format!(
+            "after PLAY at the end of the tape the waiting request returned carry={} IX={:#06x} DE={:#06x}; block 1 gives carry={} IX={:#06x} DE={:#06x}",
+            carry, regs.ix, regs.de, want2.carry, want2.ix, want2.de
+        ));
+    }
+    compare_memory(&rig, "request 1 (served in real time after PLAY at the end of the tape)")?;
+    rec.class("play-pressed-at-the-end:block-1-delivered");
+    rec.nontrivial(fnv(format!("{:?}", c).as_bytes()));
+    Ok(())
+}
+
 /// Targeted probe for a listed finding: one LOAD request on an empty tape.
 pub fn probe_end_of_tape_success() -> Result<bool, String> {
     let c = Case {
@@ -425,14 +497,26 @@ pub fn probe_end_of_tape_success() -> Result<bool, String> {
 pub fn run(run: &mut Run) {
     let t = run.tier;
     run.explore("request-sequences", t.pick(6_000, 200_000), case_strategy, check);
+    run.explore(
+        "play-pressed-after-the-end",
+        t.pick(96, 3_000),
+        || {
+            (prop_oneof![Just(Machine::K48), Just(Machine::K128)], (prop_oneof![Just(0xFFu8), Just(0x00), any::<u8>()], 1u16..40, any::<u64>()), any::<u64>(), any::<u8>())
+                .prop_map(|(machine, (flag, len, seed), ram_seed, wait_frames)| PlayAfterEnd { machine, block: BlockSpec { flag, len, seed, good_checksum: true }, ram_seed, wait_frames })
+        },
+        check_play_after_end,
+    );
 }
 
 pub fn replay(run: &mut Run, phase: &str, case: &serde_json::Value) -> Result<(), String> {
+    if phase == "play-pressed-after-the-end" {
+        return run.replay_one::<PlayAfterEnd, _>(phase, case, check_play_after_end);
+    }
     run.replay_one::<Case, _>(phase, case, check)
 }
 
 pub const LEVEL: &str = "exploration";
-pub const RULE: &str = "case = machine (128K with the 48K BASIC ROM paged) x TAP image of 0..6 blocks (flag 0x00/0xFF/any, payload lengths biased to 0,1,2,17 and the 127/128/129 and 255/256/257/258 buffer boundaries, up to 2000, right or wrong checksum, optionally a truncated tail) x sequence of 1..8 calls of the ROM routine at 0x0556 from a RAM stub (A = block flag or generated, LOAD or VERIFY, IX anywhere incl. ROM and the 0xFFFF wrap, DE around the block length, 0, 1, >= 0xFF00, uniform; VERIFY memory pre-filled to match or mismatch at a chosen index), continuing past the end of the tape. Oracle: LD-BYTES semantic model written from the ROM listing; compared at the return address: carry, IX, DE and all RAM outside system variables and the stack page. Past the end: within 150 frames the routine must not return with carry set and IX, DE, AF' must be intact. non-trivial = request that is not 'matching flag, LOAD, DE = length' or a block longer than 128 bytes; distinct = hash of (case, request index)";
+pub const RULE: &str = "case = machine (128K with the 48K BASIC ROM paged) x TAP image of 0..6 blocks (flag 0x00/0xFF/any, payload lengths biased to 0,1,2,17 and the 127/128/129 and 255/256/257/258 buffer boundaries, up to 2000, right or wrong checksum, optionally a truncated tail) x sequence of 1..8 calls of the ROM routine at 0x0556 from a RAM stub (A = block flag or generated, LOAD or VERIFY, IX anywhere incl. ROM and the 0xFFFF wrap, DE around the block length, 0, 1, >= 0xFF00, uniform; VERIFY memory pre-filled to match or mismatch at a chosen index), continuing past the end of the tape. Oracle: LD-BYTES semantic model written from the ROM listing; compared at the return address: carry, IX, DE and all RAM outside system variables and the stack page. Past the end: within 150 frames the routine must not return with carry set and IX, DE, AF' must be intact. play-pressed-after-the-end: a one-block tape is fast-loaded, a second request is left waiting at the end, the host presses PLAY: the waiting request must receive block 1 in real time with the result LD-BYTES gives for it. non-trivial = request that is not 'matching flag, LOAD, DE = length' or a block longer than 128 bytes; distinct = hash of (case, request index)";
 pub const ASSUMPTIONS: &[&str] = &[
     "LD-BYTES model from the ROM disassembly (flag compare skipped when D = 0xFF, store/compare order, parity over all bytes, DE = 0 shortcut, short block = time-out failure, long block = parity failure); cross-checked against the real ROM code running in real time by C11's system-level phase",
     "A, H, L, the zero flag are not compared; system variables 0x5C00-0x5CBF and the stack/stub page 0xBD00-0xBFFF are excluded from the memory comparison",
